@@ -309,8 +309,13 @@ class Rig:
                             sigint_event=bool(self.case.get("sigint_event")))
         self.entered = False
         if self.transport == "pty":
+            if self.case.get("typeahead"):
+                # keys typed BEFORE the program enters the Input (type-ahead on a cooked tty: held by the line discipline, handed over
+                # when the tty goes to cbreak mode) have arrived on the input stream like any others
+                self._type_while_cooked(self.case["typeahead"].encode())
             self.inp.__enter__()
             self.entered = True
+            self._settle()
         # triggers are created up front (a trigger created during a wait could not wake that wait)
         self.trig = {}
         for kind, src in sorted(self._triggers_used()):
@@ -364,6 +369,30 @@ class Rig:
         def make(when):
             return self.SEv(when, src, self.serial)
         return make
+
+    def _type_while_cooked(self, data):
+        assert all(48 <= b < 127 or b == 0x1b for b in data), "only bytes the cooked line discipline passes through unchanged"
+        self.model.bytes += data
+        os.write(self.wfd, data)
+        _real_time.sleep(0.002)
+
+    def _settle(self):
+        """after the tty went to cbreak mode: wait (bounded) for the held bytes to become readable; if they never do they were
+        discarded - the oracle will then find them undelivered"""
+        t_end = _real_time.time() + 2.0
+        while self._fionread() != self.model.kernel() and _real_time.time() < t_end:
+            _real_time.sleep(0.0005)
+
+    def suspend(self, data):
+        """the program leaves the Input (suspend / shell-out), keys are typed meanwhile, the program enters it again"""
+        if not self.entered:
+            return
+        self.inp.__exit__(None, None, None)
+        self.entered = False
+        self._type_while_cooked(data)
+        self.inp.__enter__()
+        self.entered = True
+        self._settle()
 
     # -- injections
     def _fionread(self):
@@ -423,6 +452,8 @@ class Rig:
                 _nop()
         elif k == "adv":
             self.now += op[1]
+        elif k == "suspend":
+            self.suspend(op[1].encode())
         else:
             raise HarnessError(f"unknown op {op}")
 
@@ -807,6 +838,19 @@ def small_cases(tier):
                 yield dict(suite="small", transport="pipe", pt=pt, keynames="bytes", sigint_event=False, ops=[alpha[i] for i in ops])
 
 
+def typeahead_cases():
+    typed = ["l", "ls", "abc", "x\x1b[A", "q\x1b[1;5Cz", "0123456789ab"]
+    for pt in (None, 8):
+        for kn in ("bytes", "curtsies"):
+            base = dict(suite="typeahead", transport="pty", pt=pt, keynames=kn, sigint_event=False)
+            for t in typed:
+                yield dict(base, typeahead=t, ops=[_req(0)])
+                yield dict(base, typeahead=t, ops=[["bytes", hx(b"Z")], _req(0), _req(SMALL)])
+                yield dict(base, ops=[["bytes", hx(b"yz")], _req(0), ["suspend", t], _req(0)])
+                yield dict(base, ops=[_req(0), ["suspend", t], ["bytes", hx(b"w")], _req(SMALL)])
+                yield dict(base, typeahead=t, ops=[_req(0), ["suspend", "k" + t]])
+
+
 def burst_cases(tier):
     toks = [UTF["e2"], UTF["e3"], UTF["e4"]] + ESCS
     ks = (0, 1, 5)
@@ -1004,6 +1048,16 @@ def run(check, tier, seed):
     _collect(s, check, pmap(_batch_list, [bc[i:i + per] for i in range(0, len(bc), per)]))
     s.nontrivial = set(range(s.evaluations))
     s.samples = bc[:2]
+    s.done()
+
+    # (2b) keys typed before the Input is entered / while the program has left it for a moment
+    tc = list(typeahead_cases())
+    s = Suite(check, "C08.typeahead", "keys typed on the (cooked) pty BEFORE the Input is entered and between leaving and re-entering it "
+              "(1, 2, 3, 4 and 12 printable bytes / an arrow key; with and without keys already buffered by an earlier request), then "
+              "requests and a drain: every such byte is returned exactly once, in order", bound=f"{len(tc)} histories")
+    _collect(s, check, pmap(_batch_list, [tc[i::8] for i in range(8)]))
+    s.nontrivial = set(range(s.evaluations))
+    s.samples = tc[:2]
     s.done()
 
     # (3) seeded random histories
